@@ -391,6 +391,11 @@ def evaluate(vh, cases, shard=80):
         reqs.append({"id": 2 * i, "src": c["src1"], "budget_ms": 6000})
         reqs.append({"id": 2 * i + 1, "src": c["src2"], "budget_ms": 6000})
     outs, _, _ = run_harness(vh, "eval", reqs, stall=12)
+    # a request that got no answer (timeout / crash of the process on a loaded machine) is run once more, with a larger budget
+    again = [dict(r, budget_ms=20000) for r in reqs if (outs.get(r["id"]) or {}).get("st") in (None, "timeout", "crash", "missing")]
+    if again:
+        outs2, _, _ = run_harness(vh, "eval", again, stall=40)
+        outs.update({k: o for k, o in outs2.items() if o})
     chunks = [cases[i:i + shard] for i in range(0, len(cases), shard)]
     codes, fails = {}, []
 
